@@ -60,7 +60,7 @@ def plan(tier):
         "shards": 16,
         "budget_s": 55 if quick else 780,
         "timeout_s": 1800 if quick else 4000,
-        "min_nontrivial": 40 if quick else 600,
+        "min_nontrivial": 40 if quick else 300,
         "required_counters": ["j1_returns_joined", "j2_results_compared", "u_undeploys_judged", "queue_log_records"],
         "rule": "a case = (1..6 jobs with start delay, pending/running ticks, exit code, stdout-to-file flag; "
                 "polling interval; first job id; foreign jobs; undeploy point or none). Non-trivial = at least one "
@@ -160,11 +160,14 @@ async def run_scenario(env, case, wall=600.0):
 
     # acknowledgement of a submission = _run_batch_command returning the job id to run()
     real_submit = conn._run_batch_command
+    spawn_s = [1.0]  # measured duration of one command round trip on this machine, now
 
     async def submit(*a, **k):
         jn = k.get("job_name")
         rec("sbatch-call", int(jn.rsplit("/", 1)[1]))
+        t_sub = time.time()
         jid = await real_submit(*a, **k)
+        spawn_s.append(time.time() - t_sub)
         rec("ack", int(jn.rsplit("/", 1)[1]), jid)
         return jid
 
@@ -244,7 +247,7 @@ async def run_scenario(env, case, wall=600.0):
     t_start = time.time()
     idle_since = None
     stalled = False
-    grace = 90.0
+    grace = 120.0
     pending = set(tasks)
     while pending and time.time() - t_start < wall:
         done, pending = await asyncio.wait(pending, timeout=2.0)
@@ -255,7 +258,7 @@ async def run_scenario(env, case, wall=600.0):
         all_submitted = counts["ack"] + counts["run-raised"] + counts["run-return"] >= len(case["jobs"])
         if all_submitted and own_states and not any(x in ACTIVE for x in own_states):
             idle_since = idle_since or time.time()
-            if time.time() - idle_since > grace:
+            if time.time() - idle_since > max(grace, 40 * max(spawn_s)):
                 stalled = True
                 break
         else:
@@ -406,9 +409,9 @@ async def run_case(env, sh, case, stats, sample=False):
         sh.inconclusive_because("harness task crashed: " + obs["crashed"][0][-600:])
         return obs
     if obs["timed_out"]:
-        sh.inconclusive_because(("run() still polling 90 s after all its jobs left the queue: " if obs["stalled"]
+        sh.inconclusive_because(("run() still polling long after all its jobs left the queue: " if obs["stalled"]
                                  else "scenario hit the wall-clock watchdog: ") + digest(case))
-        return obs
+        # what did return is still judged below (a safety violation stays one)
     V, recs, cnt, nontrivial = judge(case, obs)
     for k, n in cnt.items():
         sh.count(k, n)
@@ -434,10 +437,10 @@ async def shard_main(sh: Shard):
     n = 0
     try:
         while True:
-            # at least ~48 (quick) / ~640 (thorough) scenarios over all shards, whatever the machine load
-            if n >= max(sh.pick(3, 40), -(-sh.pick(48, 640) // sh.nshards)) and sh.out_of_budget():
+            # at least ~48 (quick) / ~320 (thorough) scenarios over all shards, whatever the machine load
+            if n >= max(sh.pick(3, 20), -(-sh.pick(48, 320) // sh.nshards)) and sh.out_of_budget():
                 break
-            if n >= sh.pick(400, 4000) or sum(1 for v in sh.violations if not v["mechanism"]) >= 12:
+            if n >= sh.pick(400, 6000) or sum(1 for v in sh.violations if not v["mechanism"]) >= 12:
                 break
             case = gen_case(rng)
             await run_case(env, sh, case, stats, sample=(n == 1 and sh.shard < 3))
